@@ -509,9 +509,10 @@ impl Outbound<'_> {
         state.used = self.used;
         state.capacity = self.buf.len();
         for entry in &self.retained {
-            let _ = state
-                .retained
-                .push((entry.packet_id, entry.offset, entry.len, send(entry.state)));
+            let _ =
+                state
+                    .retained
+                    .push((entry.packet_id, entry.offset, entry.len, send(entry.state)));
         }
         for entry in &self.pending_release {
             let _ = state
